@@ -234,6 +234,8 @@ def run(ctx, rep):
     provbad = [v for v in R['violations'] if v['oblig'] in ('O8', 'O8-scope') and 'symbol' in v['text']]
     for v in provbad:
         rep.bad('R09.4', 'compiler::Compiler::' + v['method'], v['construct'], v['text'], 'src/compiler.rs', key=v['kc'])
+    for v in [v for v in R['violations'] if v['oblig'] == 'R09.4']:
+        rep.bad('R09.4', 'compiler::Compiler::' + v['method'], v['construct'], v['text'], 'src/compiler.rs', key=v['kc'])
     unresolved_ok = [a for a in R['arms'] if 'unresolved' in a['trace'] and a['method'] in ('compile_expression', 'compile_statement')]
     # an ok-exit whose trace contains an unresolved name must have gone through another, successful resolution of the same name
     # (the fused helper's fallback); what matters: no path emits a slot operand without a resolved symbol (O8) and
@@ -271,6 +273,20 @@ def run(ctx, rep):
                         region = fn.reachable(none_t[0], stop=set(some_t))
                         if any(is_referr(st) for rb in region for st in fn.blocks[rb]['stmts']):
                             okr = True
+                        else:
+                            # the None side builds no error at all before it meets the Some side again (`else { return false }`
+                            # of an attempt at a fused instruction): not an error exit - the path goes on and has to look the
+                            # name up again (the obligation on the compiler's ok-exits above)
+                            some_reach = set()
+                            for sb2 in some_t:
+                                some_reach |= fn.reachable(sb2)
+                            excl = fn.reachable(none_t[0], stop=some_reach) - some_reach
+                            builds_error = any(st['k'] == 'assign' and st['rv']['k'] == 'aggregate' and st['rv'].get('adt') == 'object::Error'
+                                               for rb in excl for st in fn.blocks[rb]['stmts'])
+                            calls_out = any(fn.term(rb)['k'] == 'call' for rb in excl)
+                            if excl and not builds_error and not calls_out:
+                                okr = True
+                                why = 'fallback'
                         break
                 elif tt['k'] == 'call' and callee_name(tt).endswith(('::ok_or_else', '::ok_or')) and callee_name(t) in str(sym(fn, tt['args'][0])):
                     a1 = sym(fn, tt['args'][1]) if len(tt['args']) > 1 else ('?',)
@@ -278,7 +294,7 @@ def run(ctx, rep):
                     if any(is_referr(st) for g in clos for _, _, st in g.stmts()) or 'ReferenceError' in str(a1):
                         okr = True
                     break
-            rep.ob(okr, 'R09.4', fn.path, 'unresolved name at %s#%d' % (callee_name(t).split('::')[-1], n_ref), 'a failed lookup becomes Error::ReferenceError' if okr else why, span_loc(t['span']))
+            rep.ob(okr, 'R09.4', fn.path, 'unresolved name at %s#%d' % (callee_name(t).split('::')[-1], n_ref), ('a failed lookup ends nothing here: the path goes on to look the name up again' if why == 'fallback' else 'a failed lookup becomes Error::ReferenceError') if okr else why, span_loc(t['span']))
     rep.count('reference_error_sites', n_ref)
     # compile-time: eval runs the VM only after compile_ast returned Ok (R01.1)
     from rules import c01
